@@ -82,7 +82,7 @@ def templates(toks):
     return res
 
 
-def classify(body, fname, free, absroots, members, singles):
+def classify(body, fname, free, absroots, members, singles, relroots):
     n = len(body)
     if n == 1 and body[0][0] == 'id':
         # a fragment that is one identifier: spliced into another template (a method name behind `.`), or not generated
@@ -124,6 +124,9 @@ def classify(body, fname, free, absroots, members, singles):
                         absroots.setdefault(root, f'{fname}:{ln}')
                 else:
                     members.setdefault(t, f'{fname}:{ln}')
+                    if before[0] == 'id' and before[1] in ('crate', 'super', 'self'):
+                        # a path relative to the *user's* crate or module
+                        relroots.setdefault(before[1], f'{fname}:{ln}')
             elif prev in ('.', 'fn', 'type'):
                 members.setdefault(t, f'{fname}:{ln}')
             elif i + 1 < n and body[i + 1][1] == '=' and prev in ('<', ','):
@@ -139,7 +142,7 @@ def classify(body, fname, free, absroots, members, singles):
 def main():
     repo = sys.argv[1] if len(sys.argv) > 1 else os.environ.get('VERIF_REPO', '/repo')
     src = os.path.join(repo, 'derive-ex', 'src')
-    free, absroots, members, fmts, singles, prefixes = {}, {}, {}, {}, {}, {}
+    free, absroots, members, fmts, singles, prefixes, relroots = {}, {}, {}, {}, {}, {}, {}
     ntempl = 0
     for root, _, files in os.walk(src):
         for f in sorted(files):
@@ -154,7 +157,7 @@ def main():
             toks = lex(text)
             for name, body, ln in templates(toks):
                 ntempl += 1
-                classify(body, rel, free, absroots, members, singles)
+                classify(body, rel, free, absroots, members, singles, relroots)
                 # nested templates inside a template body are rare; handled by the outer walk
             for i, (k, t, ln) in enumerate(toks):
                 if k == 'id' and t == 'format_ident' and toks[i + 1][1] == '!' and toks[i + 3][0] == 'str':
@@ -175,6 +178,8 @@ def main():
     print('def quoteSingles : List String := ' + lean_list(singles))
     print('/-- first segments of the paths that start with `::` -/')
     print('def quoteAbsRoots : List String := ' + lean_list(absroots))
+    print('/-- heads of paths relative to the user\'s crate or module (`crate::`, `super::`, `self::`) -/')
+    print('def quoteRelRoots : List String := ' + lean_list(relroots))
     print('/-- format strings of `format_ident!` -/')
     print('def quoteFormatIdents : List String := ' + lean_list({k.strip('"'): v for k, v in fmts.items()}))
     print('/-- prefixes of per-field binders and helper functions: the string literals passed to `make_ident` / `make_pat*` -/')
